@@ -24,7 +24,7 @@ def cp_path(g):
         return "D"
     if g["cargs"] == "same":
         return "D<" + ", ".join(NAME[p] for p in ps) + ">"
-    return {"concrete": "D<u8>", "foreign": "D<'x>", "foreign2": "D<'x, 'x>", "static": "D<'static>"}[g["cargs"]]
+    return {"concrete": "D<u8>", "foreign": "D<'x>", "foreign2": "D<'x, 'x>", "foreign3": "D<'x, 'w, 'x>", "static": "D<'static>"}[g["cargs"]]
 
 
 def where_attrs(g, cp):
@@ -57,6 +57,8 @@ def s_decl(g, with_types):
         dgens, dfields, ghosts = "<'y>", dfields + ["pub ry: &'y V,"], "#[ghosts(ry: {&DUMMY})]"
     elif g["cargs"] == "foreign2":
         dgens, dfields, ghosts = "<'y, 'z>", dfields + ["pub ry: &'y V,", "pub rz: &'z V,"], "#[ghosts(ry: {&DUMMY}, rz: {&DUMMY})]"
+    elif g["cargs"] == "foreign3":
+        dgens, dfields, ghosts = "<'y, 'z, 'u>", dfields + ["pub ry: &'y V,", "pub rz: &'z V,", "pub ru: &'u V,"], "#[ghosts(ry: {&DUMMY}, rz: {&DUMMY}, ru: {&DUMMY})]"
     else:
         dgens = ""
     s = f"#[derive(o2o)] #[map({cp})] #[into_existing({cp})] {where_attrs(g, cp)} {ghosts} pub struct S{gens} {{ {' '.join(fields)} }}"
